@@ -1,3 +1,50 @@
-/-  C17/Theorems — the ledger for property C17 (every theorem here is audited).  Placeholder. -/
+/-
+  C17/Theorems — the ledger for property C17 (every theorem here is audited).
+-/
+import OttoVerif.C17.Spec
 namespace OttoVerif.C17.Thm
+open OttoVerif.C17
+
+/-! ### kernel-checked witnesses of the deviation regions (each replayed on the real code by the harness) -/
+
+def gobj (props : List PropE) : Node :=
+  .obj { rt := 0, cls := "", klass := "object", ext := true, proto := none, props := props, payload := .other "nil" }
+def fnObj (id : String) : Node :=
+  .obj { rt := 0, cls := "Function", klass := "object", ext := true, proto := none, props := [], payload := .native id }
+
+/-- a minimal runtime: 0 = global object {eval: @1}, 1 = eval, 2 = global stash -/
+def hOk : Heap := [(0, gobj [⟨"eval", 0o101, .data (.ref 1)⟩]), (1, fnObj "eval"), (2, .ost 0 none 0)]
+def rOk : Roots := { globalObject := 0, globals := [], eval := 1, globalStash := 2 }
+
+def isPanic {α : Type} : Res α → Bool
+  | .panic => true
+  | _ => false
+
+/-- non-vacuity: on the minimal runtime the cloner succeeds -/
+example : isPanic (cloneRuntime 1 hOk 3 10 rOk) = false := by decide
+
+/-- Dev `eval_rebound` (a): `delete eval` – clone.go:74 asserts `.value.(Value)` on a missing property -/
+def hEvalDeleted : Heap := [(0, gobj []), (1, fnObj "eval"), (2, .ost 0 none 0)]
+theorem dev_eval_deleted_panics : isPanic (cloneRuntime 1 hEvalDeleted 3 10 rOk) = true := by decide
+
+/-- Dev `eval_rebound` (b): `eval = 1` – `.value.(*object)` on a number -/
+def hEvalNumber : Heap := [(0, gobj [⟨"eval", 0o111, .data (.prim "i1")⟩]), (1, fnObj "eval"), (2, .ost 0 none 0)]
+theorem dev_eval_number_panics : isPanic (cloneRuntime 1 hEvalNumber 3 10 rOk) = true := by decide
+
+/-- Dev `eval_rebound` (c): `eval = parseInt` – the copy's `rt.eval` becomes the clone of parseInt,
+    the original's stays the builtin: the copy is not the image of the original -/
+def hEvalOther : Heap := [(0, gobj [⟨"eval", 0o111, .data (.ref 3)⟩, ⟨"e", 0o111, .data (.ref 1)⟩]), (1, fnObj "eval"), (2, .ost 0 none 0), (3, fnObj "parseInt")]
+theorem dev_eval_other_not_image :
+    (match cloneRuntime 1 hEvalOther 4 10 rOk with
+     | .ok c => c.roots.eval == (look 1 c.memo).getD 0
+     | _ => true) = false := by decide
+
+/-- Dev `fnstash_nil_arguments`: a function stash without an arguments object (a parameter named
+    `arguments`) – stash.go:259 `c.object(nil)` dereferences nil -/
+def hNoArgs : Heap :=
+  [(0, gobj [⟨"eval", 0o101, .data (.ref 1)⟩, ⟨"f", 0o111, .data (.ref 3)⟩]), (1, fnObj "eval"), (2, .ost 0 none 0),
+   (3, .obj { rt := 0, cls := "Function", klass := "object", ext := true, proto := none, props := [], payload := .nodeFn "n0" (some 4) }),
+   (4, .fn 0 (some 2) [⟨"arguments", 4, .prim "i1"⟩] none [])]
+theorem dev_nil_arguments_panics : isPanic (cloneRuntime 1 hNoArgs 5 10 rOk) = true := by decide
+
 end OttoVerif.C17.Thm
